@@ -41,6 +41,16 @@ def strategy(ctx):
         if cfg["klass"] != "a":
             cfg["lin"] = "ts1"
         pool.append(cfg)
+    # small steps at high orders (constraint standard deviations of 1e-11 and below in unit-scale coordinates): differential
+    # dense/isotropic/block-diagonal comparison where absolute constants in one implementation show
+    cfg = ssmcase.draw_structure(rng, strategies=("filter", "fixedinterval"), nmax=6, dmax=3, steps=(2, 5), inits=("exact",),
+                                 calibs=("mle", "dynamic", "none"), lins=("ts0",), facts=("dense",), orders=(1,))
+    cfg["n"] = int(rng.integers(4, 7))
+    cfg["d"] = int(rng.integers(2, 4))
+    cfg["cinit"] = False
+    cfg["klass"] = "a"
+    cfg["fine"] = True
+    pool.append(cfg)
     pool_ad = []
     for _ in range(max(1, size // 3)):
         cfg = ssmcase.draw_structure(rng, strategies=("filter", "fixedpoint"), nmax=5, dmax=3, steps=(2, 2), inits=("exact",),
@@ -62,8 +72,12 @@ def strategy(ctx):
             case["adaptive"] = True
         else:
             cfg = draw(st.sampled_from(pool))
-            case = draw(ssmcase.values(cfg))
+            case = draw(ssmcase.values(cfg, hmin=1e-3, hmax=1e-2, force_h=True) if cfg.get("fine") else ssmcase.values(cfg))
             case["adaptive"] = False
+            if cfg.get("fine"):
+                # O(1) residuals (Taylor coefficients that are not those of the solution): otherwise the residuals of such small
+                # steps are rounding noise and so are the calibrated scales
+                case["tc_mode"] = "arbitrary"
         case["base"] = None  # default scales
         case["mask_a"] = draw(gen.quarter(-4, 4))
         return case
@@ -129,6 +143,8 @@ def check_case(case):
     cfg = case["cfg"]
     klass, n, d = cfg["klass"], cfg["n"], cfg["d"]
     res.label(f"class:{klass}", f"calib:{cfg['calib']}", f"strategy:{cfg['strategy']}", f"lin:{cfg['lin']}")
+    if cfg.get("fine"):
+        res.label("fine_grid_high_order")
     # class b/c: rewrite the coefficient matrix (the harness scaling in case_arrays is applied afterwards, uniformly)
     if klass in ("b", "c"):
         case = dict(case)
